@@ -90,10 +90,11 @@ static uint64_t vec_sum(char *const *v) {                           /* checksum 
 static long long now_us(void) { struct timespec t; clock_gettime(CLOCK_MONOTONIC, &t); return t.tv_sec * 1000000LL + t.tv_nsec / 1000; }
 
 /* ---------------------------------------------------------------- sinks */
-enum { S_FILE, S_SOCK, S_PIPE, S_PTY, S_FULL };
+enum { S_FILE, S_SOCK, S_PIPE, S_PTY, S_FULL, S_FIFO };
 struct sink { char name[32]; int type; char path[512]; int fd; off_t off; };
 static struct sink *sinks; static int nsinks;      /* in shared memory: a child that drains a file sink advances the parent's offset too */
 
+static pid_t jam_helper; static char jam_sink[32]; static long jam_delay;
 static void drain_one(struct sink *s) {                              /* emits "name":<data> */
     static unsigned char buf[1 << 21];
     opf("\"%s\":", s->name);
@@ -206,6 +207,24 @@ static void __attribute__((noinline)) dirty_stack(size_t nbytes) {
     for (size_t i = 0; i < nbytes; i++) p[i] = 0xA5;
     __asm__ volatile("" ::: "memory");
 }
+static void do_jam(void) {
+    struct sink *sk = NULL; for (int i = 0; i < nsinks; i++) if (!strcmp(sinks[i].name, jam_sink)) sk = &sinks[i];
+    jam_sink[0] = 0;
+    if (!sk) return;
+    static char junk[4096]; memset(junk, 'J', sizeof junk); long filled = 0;
+    for (;;) { ssize_t w = write(sk->fd, junk, sizeof junk); if (w <= 0) break; filled += w; }
+    for (;;) { ssize_t w = write(sk->fd, junk, 1); if (w <= 0) break; filled += w; }
+    oflush();
+    pid_t h = fork();
+    if (h == 0) {
+        prctl(PR_SET_PDEATHSIG, SIGKILL);
+        struct timespec d = { jam_delay / 1000, (jam_delay % 1000) * 1000000L }; nanosleep(&d, NULL);
+        int bf = open(sk->path, O_RDONLY); long left = filled;                 /* blocking reads of exactly the filling */
+        while (left > 0) { ssize_t r = read(bf, junk, left > (long) sizeof junk ? sizeof junk : (size_t) left); if (r <= 0) break; left -= r; }
+        _exit(0);
+    }
+    jam_helper = h;
+}
 static void do_call_here(const char *kind);
 static size_t thread_stack = 0;            /* command threadstack <bytes>: calls are made from a fresh thread with that much stack (0 = the main thread) */
 static void *call_thread(void *k) { do_call_here((const char *) k); return NULL; }
@@ -227,6 +246,7 @@ static void do_call_here(const char *kind) {
         if (cur.want_snap) { snapshot("snap"); opf(","); }
         drain_all("sinks"); opf("}\n"); oflush();
     }
+    if (jam_sink[0]) do_jam();
     sigcount = 0;
     long long t0 = now_us();
     errno = 0;
@@ -292,6 +312,13 @@ static size_t run_line(size_t pc, int in_child, int *stop) {
     } else if (!strcmp(c, "inimode")) { chmod(ini_path, (mode_t) strtol(tok[1], NULL, 8));
     } else if (!strcmp(c, "sinkfile")) { unsigned char *p = unhex(tok[2], &n); add_sink(tok[1], S_FILE, (char *) p, -1); free(p);
     } else if (!strcmp(c, "sinksock")) { unsigned char *p = unhex(tok[2], &n); add_sink(tok[1], S_SOCK, (char *) p, bind_dgram((char *) p)); free(p);
+    } else if (!strcmp(c, "sinkfifo")) {                             /* a named pipe as the target of the file output; we keep it open read-write so that opens never block */
+        unsigned char *p = unhex(tok[2], &n); unlink((char *) p);
+        if (mkfifo((char *) p, 0666)) opf("{\"ev\":\"error\",\"what\":\"mkfifo: %s\"}\n", strerror(errno));
+        int fd = open((char *) p, O_RDWR | O_NONBLOCK | O_CLOEXEC); add_sink(tok[1], S_FIFO, (char *) p, fd); free(p);
+    } else if (!strcmp(c, "fifojam")) {                              /* fifojam <sink> <delay_ms>: the NEXT call finds the pipe filled to the brim; a helper takes the filling out again after the delay */
+        snprintf(jam_sink, sizeof jam_sink, "%s", tok[1]); jam_delay = atol(tok[2]);
+    } else if (!strcmp(c, "fifowait")) { if (jam_helper > 0) { int st; waitpid(jam_helper, &st, 0); jam_helper = 0; }
     } else if (!strcmp(c, "sinkfull")) { unsigned char *p = unhex(tok[2], &n); add_sink(tok[1], S_FULL, (char *) p, bind_dgram((char *) p)); free(p);
     } else if (!strcmp(c, "sinkstall")) {                            /* a stream listener that never accepts, its backlog already full: connect() on a blocking socket would hang */
         unsigned char *p = unhex(tok[1], &n); struct sockaddr_un u; memset(&u, 0, sizeof u); u.sun_family = AF_UNIX; snprintf(u.sun_path, sizeof u.sun_path, "%s", (char *) p);
